@@ -26,6 +26,8 @@ def need_members(name, members):
     return f
 
 
+import stages
+
 PLANS = {}
 
 PLANS["C04"] = {
@@ -261,4 +263,28 @@ PLANS["C13"] = {
     "require": [need_set("words_covered", 166), need_set("words_both_succeeded", 150), need("pairs_both_succeeded", 100000),
                 need("pairs_both_failed", 100000), need("tagop:insert-tag", 20000), need("tagop:with-tags", 10000),
                 need_set("tag_positions", 7), need_set("arg_classes", 13)],
+}
+
+PLANS["C10"] = {
+    "needs_repo_bin": True,
+    "stages": {"quick": [stages.c10_repl_stage], "thorough": [stages.c10_repl_stage]},
+    "jobs": {
+        "quick": [("", "release", 250000), ("", "dev", 25000)],
+        "thorough": [("", "release", 10000000), ("", "dev", 1000000)],
+    },
+    "rule": "4 of 5 cases: a history of 0..5 accepted sources is given to the subject and to a twin (a fresh interpreter, not a clone); "
+            "the subject then gets a source that is rejected while building = optional completed prefix (push, print, definition, var, "
+            "meta block redefining a constant, late word) + 0..2 of 15 unclosed structures (if begin do case-of case vec map tags def "
+            "meta enum and combinations) + one of 28 failing tokens (bad literals, unknown word, unbalanced closers, errors inside meta "
+            "blocks, failing immediate words, failing include) + one of 9 trailers with visible side effects; the dump hook must show "
+            "mode, nesting, pending flows, pending inputs, hidden/visible split, machine state, dictionary and code unchanged, and 2..6 "
+            "probes (20 kinds, eval or compile+run) must give identical observations on subject and twin. 1 of 5 cases: a source that "
+            "prints a marker and then fails at run time; later probes with known effect must succeed, push exactly their result and "
+            "print only their own output. A stage types sessions into the repository's own xeh binary (REPL) and compares with the "
+            "twin session. distinct = distinct (open structures, failing token, trailer, style)",
+    "assumptions": ["the source counter (<buffer#N>) and the instruction meter legitimately move when a source is rejected",
+                    "a source is 'rejected while building' when compile() returns the error, or eval() returns it without having added code"],
+    "require": [need("rejected_sources", 100000), need("hook_invariants_checked", 100000), need("probes_compared", 300000),
+                need("runtime_failures", 20000), need("runtime_probes", 50000), need_set("failure_kinds", 26), need_set("open_structures", 60),
+                need_set("probe_kinds", 19), need("repl_twin_sessions_compared", 60), need("repl_runtime_sessions_checked", 20)],
 }
